@@ -68,7 +68,7 @@ def run(chk, tier):
             # the class of "that exception" is the caller's business: an ordinary Exception in 40 % of the plans, otherwise
             # one of the classes Python or the library treats specially (StopIteration, GeneratorExit, KeyboardInterrupt,
             # CancelledError, SystemExit, KeyError, ZeroDivisionError, MemoryError, ...)
-            hard = False if (not fs or rnd.random() < 0.4) else rnd.choice(sorted(pl.KINDS))
+            hard = False if (not fs or rnd.random() < 0.4) else sorted(pl.KINDS)[tid % len(pl.KINDS)]      # each class in turn
             # half of the plans run on a brand-new cube object whose very first evaluation is the interrupted one
             # (state a cube builds up lazily during its first evaluation must survive an interrupt too)
             pr = ref.twin() if rnd.random() < 0.5 else ref
